@@ -169,6 +169,7 @@ type gcase struct {
 	req    interface{}            // API request message, or nil for a WalletManager call
 	call   func(wd *World) string // runs the case
 	desc   string
+	wm     map[string]interface{} // arguments of a WalletManager call the model knows
 }
 
 func trunc(s string) string {
@@ -372,11 +373,13 @@ func genWM(wd *World, p *pools, r *rng.R, pGood int) gcase {
 			if r.Chance(30) {
 				sub[S("Address")] = struct{}{}
 			}
-			return gcase{desc: desc("", a, b, c, d, sub), call: func(wd *World) string { _, _, err := wm(wd).CreateRawTransaction(a, b, c, d, sub); return e(err) }}
+			return gcase{desc: desc("", a, b, c, d, sub), wm: map[string]interface{}{"inputs": a, "change_empty": len(d) == 0, "namounts": len(b)},
+				call: func(wd *World) string { _, _, err := wm(wd).CreateRawTransaction(a, b, c, d, sub); return e(err) }}
 		}},
 		{"WM.EstimateManualTxFee", func() gcase {
 			a, n := ins(), r.Intn(4)
-			return gcase{desc: desc("", a, n), call: func(wd *World) string { _, err := wm(wd).EstimateManualTxFee(a, n); return e(err) }}
+			return gcase{desc: desc("", a, n), wm: map[string]interface{}{"inputs": a},
+				call: func(wd *World) string { _, err := wm(wd).EstimateManualTxFee(a, n); return e(err) }}
 		}},
 		{"WM.AutoCreateRawTransaction", func() gcase {
 			a, b, c := amounts(), lock(), amt(S("Fee"))
@@ -423,7 +426,11 @@ func genWM(wd *World, p *pools, r *rng.R, pGood int) gcase {
 			if r.Chance(10) {
 				n = -1
 			}
-			return gcase{desc: desc("", n, a), call: func(wd *World) string { _, err := wm(wd).GetTxHistory(n, a); return e(err) }}
+			var wmv map[string]interface{}
+			if a == "" {
+				wmv = map[string]interface{}{"wanted": n}
+			}
+			return gcase{desc: desc("", n, a), wm: wmv, call: func(wd *World) string { _, err := wm(wd).GetTxHistory(n, a); return e(err) }}
 		}},
 		{"WM.GetStakingHistory", func() gcase {
 			b := r.Bool()
